@@ -308,4 +308,20 @@ var props = []propCfg{
 		LevelNote: "Trusted: the generator of the Go client (it is the executable form of the documented representation), the Go toolchain.",
 		DesignRef: "DESIGN.md section 4, C03",
 	},
+	{
+		ID: "C02", Pkg: "props/c02", Needs: []string{"fc", "gocache"},
+		Tests: []testCfg{
+			{Name: "TestKnown", ShardsQ: 1, ShardsT: 1},
+			{Name: "TestSignatures", Rapid: true, Quick: 480, Thorough: 9600, ShardsQ: 16, ShardsT: 16},
+		},
+		Rule:      "programs of the inference profile: fixed declarations (a record, a generic record, a union, a generic union) and 3..9 top-level functions of 1..4 parameters (base types, slices, tuples, records, unions, generic instantiations, function-typed parameters) whose bodies are built forward from the constructs the documents promise inference for: arithmetic / comparison with an operand of known type, calls of library functions with concrete and with generic signatures, lambdas passed to typed higher-order functions, tuples, slice literals, destructuring, record / generic record / union / generic union construction, field access on a known record, calls of earlier (possibly generic) user functions, a function-typed parameter applied once, pipes (also into partial applications), if/else. Each parameter annotation is erased with probability 2/3 while generating, a result annotation is kept with probability 1/5. Oracle: (a) the func declaration found with go/parser in gen_prog.go (type parameter list with constraint any, parameter and result types) equals the Go mapping of the principal type computed by an independent Hindley-Milner inference (occurs check, n-ary function types, fresh instantiation per reference, monomorphic let) under exactly the annotations kept; (b) a second variant in which every further annotation is erased that the reference inference shows to leave all principal types unchanged yields byte-identical gen_prog.go; (c) the emitted package type-checks with go build together with a generated Go file that instantiates each generic function at two different type-argument lists. One evaluation = one function signature compared. Non-trivial = a program with at least one erased annotation or one surviving type parameter (reported per program); distinct = hash of the source.",
+		Technique: "property-based testing (rapid) against an independent reference type inference (principal types) + metamorphic annotation erasure + Go type-check of the emitted package",
+		Assumptions: []string{
+			"only constructs for which the documentation promises inference are generated (DESIGN.md section 3); arithmetic / ordering always has an operand whose type is fixed where it is written; a function-typed parameter is applied at most once",
+			"known finding D20 (a union with payload needs 'import frt' in the user's file) is excluded by construction: every program imports frt",
+		},
+		LevelText: "Generated functions with partially erased annotations, each signature decided against a principal type computed by code that shares nothing with fc, plus the erasure metamorphism and a real Go type-check with explicit instantiations. Thousands of signatures per quick run. Exploration.",
+		LevelNote: "Trusted: the reference inference (350 lines, standard algorithm), go/parser + go/types.ExprString, the Go type checker.",
+		DesignRef: "DESIGN.md section 4, C02",
+	},
 }
